@@ -75,7 +75,8 @@ def run(module, cfg, env=None, workers=16, tag=None, xss="256m", heap="8g", time
     meta = os.path.join(WORK, "tlc-" + tag)
     shutil.rmtree(meta, ignore_errors=True)
     os.makedirs(meta, exist_ok=True)
-    cmd = ["java", "-XX:+UseParallelGC", "-Xss" + xss, "-Xmx" + heap, "-cp", JARS, "tlc2.TLC",
+    cmd = ["java", "-XX:+UseParallelGC", "-Dfile.encoding=UTF-8", "-Dstdout.encoding=UTF-8", "-Dsun.stdout.encoding=UTF-8",
+           "-Xss" + xss, "-Xmx" + heap, "-cp", JARS, "tlc2.TLC",
            "-workers", str(workers), "-metadir", meta, "-noGenerateSpecTE", "-config", cfg]
     if coverage:
         cmd += ["-coverage", "1"]
@@ -89,8 +90,16 @@ def run(module, cfg, env=None, workers=16, tag=None, xss="256m", heap="8g", time
         e.update({k: str(v) for k, v in env.items()})
     t0 = time.time()
     res = TLCResult()
+    def _die_with_parent():
+        # a TLC whose driver was killed must not keep running (PR_SET_PDEATHSIG = 1)
+        try:
+            import ctypes
+            import signal
+            ctypes.CDLL("libc.so.6", use_errno=True).prctl(1, signal.SIGKILL)
+        except Exception:
+            pass
     p = subprocess.Popen(cmd, cwd=SPEC, env=e, stdout=subprocess.PIPE, stderr=subprocess.STDOUT,
-                         text=True, errors="replace")
+                         text=True, encoding="utf-8", errors="replace", preexec_fn=_die_with_parent)
     tail = []
     ok = False
     # watchdog: TLC that neither ends nor prints (e.g. a heap in GC thrash) must not hang the check
